@@ -1150,6 +1150,9 @@ def main(verif, argv):
     try:
         if argv[0] == "setup":
             build_many(ctx, SETUP_CONFIGS)
+            # Miri: build the interpreter sysroot and the crates once per configuration used by the quick tiers
+            with ThreadPoolExecutor(max_workers=4) as ex:
+                list(ex.map(lambda k: miri_run(ctx, k, ["batch", "c17api", "--count", 0, "--threads", 1]), ["miri_sse2", "miri_sse41", "miri_avx2", "miri_unsafe_sse2"]))
             return 0
         if argv[0] == "selftest":
             return selftest(ctx)
